@@ -1,5 +1,5 @@
 ----------------------------- MODULE SpmcQueue -----------------------------
-(* DRAFT (round 0).  Literal model of may_queue/src/spmc.rs:
+(* Literal model of may_queue/src/spmc.rs:
      owner:    push(), local_pop()
      stealers: pop(), bulk_pop()  (steal_into = bulk_pop + re-queue, see BatchOrder)
    head is the packed word (block address, slot id, bit63).  Blocks live at addresses from a
